@@ -59,6 +59,17 @@ CHECKS = {
         "flagged entry still feeds its product / neighbour.",
         "Trusts vlib/ratelaw.py, vlib/si.py, vlib/build_model.py. Stochastic runs use integer states with "
         "init_state_processing='none' and 5-60 iterations per case."),
+    "C13": (
+        "Hypothesis model-based generation; reference density x volume from the spec; model array for "
+        "stateful accessor histories",
+        "Exploration. Default state and chemostat map of generated systems (heterogeneous units at every "
+        "level, per-environment densities/flags with fallbacks, grids and graphs) are compared entry by "
+        "entry with reference values computed from the spec; every (species, cell) is read through every "
+        "species/position form; short write histories (set_state / set_chemostat in any amount unit) are "
+        "replayed on a model array with a full-array comparison after each write; regeneration after an "
+        "edit is compared with the reference of the edited spec.",
+        "Trusts vlib/ratelaw.Model (default_state/default_flags), vlib/si.py, vlib/build_model.py; bare "
+        "numbers written with set_state are taken in the system's unit system (as the state setter does)."),
 }
 
 NOT_BUILT = "check not built yet in this working session (planned; DESIGN.md section 4)"
